@@ -64,7 +64,7 @@ class ObsFacts:
         repo = ctx.repo
         self.fi = repo.func(STATE_MOD, "State.get_observation")
         ps = self.fi.params
-        if len(ps) != 4:
+        if len(ps) < 4:
             raise AnalysisError("State.get_observation no longer takes (self, action, result, "
                                 "fully_obs)")
         self.ps = ps
